@@ -409,6 +409,23 @@ pub fn c18(h: &mut H) {
         h.expect(back.as_ref() == Some(&pk_t), "C18.pk_json", "public key does not survive JSON", &[kid]);
         let back: Option<CL03SecretKey> = serde_json::to_string(&sk_t).ok().and_then(|t| serde_json::from_str(&t).ok());
         h.expect(back.as_ref() == Some(&sk_t), "C18.sk_json", "secret key does not survive JSON", &[kid]);
+        // the key types are shared by all parameter sets: moduli of the sizes the LARGER suites generate
+        // (ln + 1 and ln + 2 bits for ln = 2048, 3072) survive the JSON and byte encodings as well
+        for bits in [2049u32, 2050, 3073, 3074] {
+            let mut nn = pow2(bits - 1) + Integer::from_digits(&h.rng.bytes(((bits - 2) / 8) as usize), rug::integer::Order::MsfBe);
+            nn.set_bit(0, true);
+            let big_pk = json!({"N": iv(&nn), "b": iv(&Integer::from(&nn - 5u32)), "c": iv(&Integer::from(&nn >> 3u32))});
+            let typed: Option<CL03PublicKey> = serde_json::from_value(big_pk.clone()).ok();
+            h.stat("C18.pk_json_large_modulus");
+            h.expect(typed.is_some(), "C18.pk_json_large", &format!("a public key with a {}-bit modulus is refused by the JSON decoder", bits), &[]);
+            if let Some(t) = typed {
+                let back: Option<CL03PublicKey> = serde_json::to_string(&t).ok().and_then(|x| serde_json::from_str(&x).ok());
+                h.expect(back.as_ref() == Some(&t), "C18.pk_json_large", &format!("a public key with a {}-bit modulus does not survive JSON", bits), &[]);
+            }
+            let big_ck = json!({"N": iv(&nn), "g_bases": [iv(&Integer::from(&nn - 7u32))], "h": iv(&Integer::from(&nn >> 2u32))});
+            let typed: Option<CL03CommitmentPublicKey> = serde_json::from_value(big_ck.clone()).ok();
+            h.expect(typed.is_some(), "C18.cpk_json_large", &format!("a commitment key with a {}-bit modulus is refused by the JSON decoder", bits), &[]);
+        }
         let ck_t: Option<CL03CommitmentPublicKey> = serde_json::from_value(ck.clone()).ok();
         let back: Option<CL03CommitmentPublicKey> = ck_t.as_ref().and_then(|t| serde_json::to_string(t).ok()).and_then(|t| serde_json::from_str(&t).ok());
         h.expect(ck_t.is_some() && back == ck_t, "C18.cpk_json", "commitment key does not survive JSON", &[cid]);
